@@ -24,6 +24,7 @@ PROBES = ['retry-round', 'preloaded', 'announced-by-second-queue',
           'backend:cloud+mq']
 STATES_MEASURE = 'distinct (backend, per-message attempt-shape sequence)'
 BIAS = {'p_split': 0.2, 'p_slow_store': 0.4, 'max_msgs': 4,
+        'p_startup_burst': 0.1,
         'L': [1, 2, 2, 3], 'waits': (0, 0, 1, 1, 5, 30, 300),
         'hows': ['enqueue', 'enqueue', 'preload', 'announce'],
         'n_flush': [0, 0, 1, 1, 2], 'p_map': 0.3,
